@@ -6,6 +6,215 @@ import Verif.Proofs.Refine.Rec
 namespace Verif
 open Verif.Spec
 
+namespace Rec
+
+/-! ## `Sub g l`: the list `l` is the ghost `g` restricted to the members of `l` -/
+
+/-- `l` is `g` restricted to the members of `l`, in the order of `g` -/
+def Sub (g l : List Key) : Prop := l = g.filter (fun x => decide (x ∈ l))
+
+theorem Sub.nil : Sub [] [] := rfl
+
+theorem Sub.filter {g l : List Key} (h : Sub g l) (p : Key → Bool) : Sub g (l.filter p) := by
+  unfold Sub at *
+  calc l.filter p = (g.filter (fun x => decide (x ∈ l))).filter p := congrArg (List.filter p) h
+    _ = g.filter (fun x => decide (x ∈ l.filter p)) := by
+        rw [List.filter_filter]
+        apply List.filter_congr
+        intro x _
+        simp [List.mem_filter, Bool.and_comm]
+
+theorem Sub.snoc {g l : List Key} (h : Sub g l) {k : Key} (hk : k ∉ l) :
+    Sub (dropKey g k ++ [k]) (l ++ [k]) := by
+  unfold Sub at *
+  have h1 : (dropKey g k).filter (fun x => decide (x ∈ l ++ [k])) = l := by
+    unfold dropKey
+    rw [List.filter_filter]
+    conv => rhs; rw [h]
+    apply List.filter_congr
+    intro x _
+    by_cases hx : x = k
+    · subst hx; simp [hk]
+    · simp [hx]
+  rw [List.filter_append, h1]
+  simp
+
+theorem Sub.use {g l : List Key} (h : Sub g l) (k : Key) :
+    Sub (dropKey g k ++ [k]) (dropKey l k ++ [k]) := by
+  apply Sub.snoc (h.filter _)
+  simp
+
+theorem Sub.del {g l : List Key} (h : Sub g l) (k : Key) : Sub (dropKey g k) (dropKey l k) := by
+  have h2 := h.filter (fun x => !decide (x = k))
+  unfold Sub at *
+  have : (dropKey g k).filter (fun x => decide (x ∈ dropKey l k)) =
+      g.filter (fun x => decide (x ∈ dropKey l k)) := by
+    unfold dropKey
+    rw [List.filter_filter]
+    apply List.filter_congr
+    intro x _
+    by_cases hx : x = k
+    · subst hx; simp
+    · simp [hx]
+  rw [this]
+  exact h2
+
+theorem dropKey_head {w : Key} {t : List Key} (hn : (w :: t).Nodup) : dropKey (w :: t) w = t := by
+  simp only [List.nodup_cons] at hn
+  unfold dropKey
+  rw [List.filter_cons]
+  simp only [decide_true, Bool.not_true, Bool.false_eq_true, if_false]
+  rw [List.filter_eq_self]
+  intro x hx
+  have : x ≠ w := fun h => hn.1 (h ▸ hx)
+  simp [this]
+
+theorem dropKey_last {w : Key} {t : List Key} (hn : (t ++ [w]).Nodup) : dropKey (t ++ [w]) w = t := by
+  have hd : w ∉ t := by
+    intro hm
+    exact (List.nodup_append.mp hn).2.2 _ hm w (by simp) rfl
+  unfold dropKey
+  rw [List.filter_append]
+  have : t.filter (fun x => !decide (x = w)) = t := by
+    rw [List.filter_eq_self]
+    intro x hx
+    have : x ≠ w := fun h => hd (h ▸ hx)
+    simp [this]
+  rw [this]
+  simp
+
+theorem keys_prune (vic : Victim) {l : List Entry} (hn : (keys l).Nodup) :
+    ∃ w, keys (prune vic l) = dropKey (keys l) w := by
+  cases vic with
+  | oldest =>
+    cases l with
+    | nil => exact ⟨0, rfl⟩
+    | cons e t => exact ⟨e.key, (dropKey_head (w := e.key) (t := keys t) hn).symm⟩
+  | newest =>
+    by_cases hl : l = []
+    · subst hl; exact ⟨0, rfl⟩
+    · obtain ⟨t, e, rfl⟩ : ∃ t e, l = t ++ [e] :=
+        ⟨l.dropLast, l.getLast hl, (List.dropLast_concat_getLast hl).symm⟩
+      refine ⟨e.key, ?_⟩
+      simp only [prune, List.dropLast_concat]
+      rw [keys_append] at hn ⊢
+      exact (dropKey_last (w := e.key) (t := keys t) hn).symm
+
+theorem keys_touch (l : List Entry) (e : Entry) :
+    keys (touch l e) = dropKey (keys l) e.key ++ [e.key] := by
+  unfold touch
+  rw [keys_append, keys_delE]
+  rfl
+
+theorem useOrder_snoc {σ : Type} (p : STrace σ) (x : σ × Time × Atom) :
+    useOrder (p ++ [x]) = useStep (useOrder p) x.2.2 := by
+  simp [useOrder, List.foldl_append]
+
+/-- the invariant along runs: `Rec.Inv`, and the model's list is the recency ghost restricted to the
+resident keys -/
+def OInv (cap : Nat) (p : STrace RecState) (s : RecState) : Prop :=
+  Inv cap s ∧ Sub (useOrder p) (keys s.ents)
+
+theorem oinv_step (vic : Victim) (cap : Nat) (p : STrace RecState) (s : RecState) (now : Time)
+    (x : Atom) (s' : RecState) (h : OInv cap p s) (hs : CStep (core vic) s now x s') :
+    OInv cap (p ++ [(s, now, x)]) s' := by
+  refine ⟨((refines vic cap).cstep h.1 hs).1, ?_⟩
+  rw [useOrder_snoc]
+  have hi := h.1
+  have ho := h.2
+  cases hs with
+  | pre => exact ho
+  | ins k v a ttl =>
+    show Sub (useStep (useOrder p) (.ins k v a _ (insert1 vic s k v a).2)) (keys (insert1 vic s k v a).1.ents)
+    unfold insert1
+    cases hg : getE s.ents k with
+    | some e =>
+      have hek := getE_key hg
+      by_cases ha : a.upd = true
+      · simp only [ha, if_true, useStep]
+        rw [keys_touch]
+        show Sub _ (dropKey (keys s.ents) e.key ++ [e.key])
+        rw [hek]
+        exact ho.use k
+      · simp only [ha, Bool.false_eq_true, if_false, useStep]
+        exact ho
+    | none =>
+      have hk : k ∉ keys s.ents := getE_eq_none_iff.mp hg
+      by_cases ha : a.ins = true
+      · simp only [ha, if_true, useStep]
+        rw [keys_append]
+        show Sub _ (_ ++ [k])
+        by_cases hfull : s.ents.length ≥ s.cap
+        · simp only [hfull, if_true]
+          obtain ⟨w, hw⟩ := keys_prune vic hi.nodup
+          rw [hw]
+          apply Sub.snoc (ho.filter _)
+          intro hm
+          exact hk (List.mem_filter.mp hm).1
+        · simp only [hfull, if_false]
+          exact ho.snoc hk
+      · simp only [ha, Bool.false_eq_true, if_false, useStep]
+        exact ho
+  | look k peek =>
+    show Sub (useStep (useOrder p) (.look k peek (find1 s k peek).2)) (keys (find1 s k peek).1.ents)
+    unfold find1
+    cases hg : getE s.ents k with
+    | some e =>
+      have hek := getE_key hg
+      cases peek with
+      | true => simp only [if_true, useStep]; exact ho
+      | false =>
+        simp only [Bool.false_eq_true, if_false, useStep]
+        rw [keys_touch, hek]
+        exact ho.use k
+    | none => simp only [useStep]; exact ho
+  | del k =>
+    show Sub (useStep (useOrder p) (.del k (erase1 s k).2)) (keys (erase1 s k).1.ents)
+    unfold erase1
+    cases hg : getE s.ents k with
+    | some e =>
+      simp only [useStep]
+      rw [keys_delE]
+      exact ho.del k
+    | none => simp only [useStep]; exact ho
+  | clear hc => simp [core] at hc
+  | reap => exact ho
+  | age => exact ho
+  | setTtl t => exact ho
+  | obsSize => exact ho
+  | obsEmpty => exact ho
+  | obsCap => exact ho
+
+theorem oinv_run (vic : Victim) {cap : Nat} (hcap : 0 < cap) {tr : STrace RecState} {s : RecState}
+    (hrun : CRun (core vic) (init cap) tr s) : OInv cap tr s := by
+  have := CRun.invariant (P := OInv cap) (pre := []) (oinv_step vic cap)
+    ⟨inv_init hcap, Sub.nil⟩ hrun
+  simpa using this
+
+/-- what an accepted insert of a new key into a full cache does -/
+theorem ins_full (vic : Victim) {cap : Nat} {s s' : RecState} {now : Time} {k : Key} {v : Val}
+    {al : Allow} {d : Time} (hi : Inv cap s)
+    (hstep : CStep (core vic) s now (.ins k v al d true) s')
+    (hnew : k ∉ keys s.ents) (hfull : cap ≤ s.ents.length) :
+    s'.ents = prune vic s.ents ++ [{ key := k, val := v }] := by
+  generalize hx : Atom.ins k v al d true = x at hstep
+  cases hstep with
+  | ins k' v' a' ttl =>
+    injection hx with h1 h2 h3 h4 h5
+    subst h1 h2 h3
+    have hg : getE s.ents k = none := getE_eq_none_iff.mpr hnew
+    have hf : s.ents.length ≥ s.cap := by rw [hi.cap_eq]; exact hfull
+    have h5' : (insert1 vic s k v al).2 = true := h5.symm
+    show (insert1 vic s k v al).1.ents = _
+    unfold insert1 at h5' ⊢
+    simp only [hg] at h5' ⊢
+    by_cases ha : al.ins = true
+    · simp only [ha, if_true, hf]
+    · simp [ha] at h5'
+  | _ => cases hx
+
+end Rec
+
 /-- **C10, lru_cache.** When an accepted insert of a new key finds the cache full, the entry removed is
 the resident key whose most recent use (accepted insert/update, successful non-peek lookup) is oldest. -/
 theorem C10_lru (cap : Nat) (hcap : 0 < cap) {tr : STrace RecState} {s s' : RecState}
@@ -14,7 +223,29 @@ theorem C10_lru (cap : Nat) (hcap : 0 < cap) {tr : STrace RecState} {s s' : RecS
     (hstep : CStep Lru.core s now (.ins k v al d true) s')
     (hnew : k ∉ keys s.ents) (hfull : cap ≤ s.ents.length) :
     ∃ w, firstIn (useOrder tr) (keys s.ents) = some w ∧ Evicts (keys s.ents) (keys s'.ents) k w := by
-  sorry
+  obtain ⟨hi, ho⟩ := Rec.oinv_run .oldest hcap hrun
+  have he := Rec.ins_full .oldest hi hstep hnew hfull
+  have hn := hi.nodup
+  cases hl : s.ents with
+  | nil => rw [hl] at hfull; simp at hfull; omega
+  | cons e t =>
+    rw [hl] at ho hnew hn he
+    simp only [keys, List.map_cons] at ho hnew hn ⊢
+    refine ⟨e.key, ?_, ?_⟩
+    · unfold firstIn
+      rw [← List.head?_filter, ← ho]
+      rfl
+    · rw [he]
+      simp only [List.nodup_cons, List.mem_cons, not_or] at hn hnew
+      simp only [Rec.prune, List.tail_cons, List.map_append, List.map_cons, List.map_nil]
+      refine ⟨by simp, fun h => hnew.1 h.symm, ?_, ?_⟩
+      · simp only [List.mem_append, List.mem_singleton, not_or]
+        exact ⟨hn.1, fun h => hnew.1 h.symm⟩
+      · intro u hu hne
+        simp only [List.mem_cons] at hu
+        rcases hu with hu | hu
+        · exact absurd hu hne
+        · exact List.mem_append_left _ hu
 
 /-- **C13, mru_cache.** ... the entry removed is the resident key whose most recent use is newest; the
 new key then becomes the most recently used. -/
@@ -25,6 +256,38 @@ theorem C13_mru (cap : Nat) (hcap : 0 < cap) {tr : STrace RecState} {s s' : RecS
     (hnew : k ∉ keys s.ents) (hfull : cap ≤ s.ents.length) :
     ∃ w, lastIn (useOrder tr) (keys s.ents) = some w ∧ Evicts (keys s.ents) (keys s'.ents) k w ∧
       lastIn (useOrder (tr ++ [(s, now, .ins k v al d true)])) (keys s'.ents) = some k := by
-  sorry
+  have hinv := Rec.oinv_run .newest hcap hrun
+  obtain ⟨hi, ho⟩ := hinv
+  obtain ⟨_, ho'⟩ := Rec.oinv_step .newest cap tr s now _ s' ⟨hi, ho⟩ hstep
+  have he := Rec.ins_full .newest hi hstep hnew hfull
+  have hn := hi.nodup
+  have hl : s.ents ≠ [] := by
+    intro h0; rw [h0] at hfull; simp at hfull; omega
+  obtain ⟨t, e, hte⟩ : ∃ t e, s.ents = t ++ [e] :=
+    ⟨s.ents.dropLast, s.ents.getLast hl, (List.dropLast_concat_getLast hl).symm⟩
+  have hlast : lastIn (useOrder (tr ++ [(s, now, .ins k v al d true)])) (keys s'.ents) = some k := by
+    unfold lastIn
+    rw [← ho', he, keys_append]
+    simp [keys]
+  rw [hte] at ho hnew hn he
+  rw [hte]
+  rw [keys_append] at ho hnew hn ⊢
+  have hd : e.key ∉ keys t := by
+    intro hm
+    exact (List.nodup_append.mp hn).2.2 _ hm e.key (by simp [keys]) rfl
+  refine ⟨e.key, ?_, ?_, hlast⟩
+  · unfold lastIn
+    rw [← ho]
+    simp [keys]
+  · rw [he]
+    simp only [Rec.prune, List.dropLast_concat, keys_append]
+    unfold Evicts
+    simp only [keys, List.map_cons, List.map_nil, List.mem_append, List.mem_singleton, not_or] at hnew hd ⊢
+    refine ⟨Or.inr trivial, fun h => hnew.2 h.symm, ?_, ?_⟩
+    · exact ⟨hd, fun h => hnew.2 h.symm⟩
+    · intro u hu hne
+      rcases hu with hu | hu
+      · exact Or.inl hu
+      · exact absurd hu hne
 
 end Verif
